@@ -472,6 +472,9 @@ def confirm(pid, v, blobs=None):
         json.dump({'kind': 'fine-interleaving-engine-only', 'violation': {'property': pid, 'what': v['what']}, 'trace': v['trace'], 'cfg': v['cfg'], 'model': v.get('model')}, open(path, 'w'), indent=1, default=str)
         return {'status': 'engine_only', 'path': path, 'known': v.get('known'),
                 'detail': 'the interleaving preempts a thread between two accesses to shared state where the source has no schedule point: it cannot be forced natively'}
+    if v.get('kind') == 'kani_serde':
+        from . import w_serde
+        return w_serde.confirm(pid, v)
     if v.get('kind') == 'induct': return confirm_induct(pid, v, blobs)
     if v.get('kind') == 'sync': return confirm_sync(pid, v, blobs)
     if v.get('kind') in ('redisrecycle', 'redisconfig', 'pgmanager'):
